@@ -31,13 +31,64 @@ type fakeThread struct {
 }
 
 func (t *fakeThread) String() string               { return "fake-" + strconv.Itoa(t.id) }
-func (t *fakeThread) QueueData(p *defn.Pkt)        { t.data++ }
-func (t *fakeThread) QueueInterest(p *defn.Pkt)    { t.interests++ }
+func (t *fakeThread) QueueData(p *defn.Pkt)        { t.data++; keep(p) }
+func (t *fakeThread) QueueInterest(p *defn.Pkt)    { t.interests++; keep(p) }
 func (t *fakeThread) GetNumPitEntries() int        { return 0 }
 func (t *fakeThread) GetNumCsEntries() int         { return 0 }
 
 var threads []*fakeThread
 var ls *face.NDNLPLinkService
+
+// the packets queued to the forwarding threads stay in their queues, uncopied, while later frames
+// arrive on the face (in the transport's reusable receive buffer): what a queued packet says (name of
+// the decoded packet, bytes, token) is rendered when it is queued and again after every later frame
+type keptPkt struct {
+	p    *defn.Pkt
+	text string
+}
+
+var kept []keptPkt
+var rbuf []byte
+
+func renderPkt(p *defn.Pkt) string {
+	name := "-"
+	if p.L3 != nil {
+		if p.L3.Interest != nil {
+			name = common.Hex(p.L3.Interest.NameV.Bytes())
+			if p.L3.Interest.HopLimitV != nil {
+				name += "h" + strconv.Itoa(int(*p.L3.Interest.HopLimitV))
+			}
+		} else if p.L3.Data != nil {
+			name = common.Hex(p.L3.Data.NameV.Bytes())
+		}
+	}
+	return name + "/" + common.Hex(p.Raw) + "/" + common.Hex(p.PitToken)
+}
+
+func keep(p *defn.Pkt) {
+	if len(kept) < 48 {
+		kept = append(kept, keptPkt{p, safeRender(p)})
+	}
+}
+
+func safeRender(p *defn.Pkt) (s string) {
+	defer func() {
+		if recover() != nil {
+			s = "unrenderable"
+		}
+	}()
+	return renderPkt(p)
+}
+
+// queuedStable: "1" iff every packet queued so far in this history still says what it said when queued
+func queuedStable() string {
+	for i, k := range kept {
+		if safeRender(k.p) != k.text {
+			return "0:" + strconv.Itoa(i)
+		}
+	}
+	return "1"
+}
 
 func setThreads(n int) {
 	threads = make([]*fakeThread, n)
@@ -57,6 +108,7 @@ func newLink(nThreads int, reasm bool) string {
 	opt.IsReassemblyEnabled = reasm
 	ls = face.MakeNDNLPLinkService(face.MakeNullTransport(), opt)
 	ls.SetFaceID(7)
+	kept = nil
 	return "ok"
 }
 
@@ -72,10 +124,18 @@ func linkFrame(frame []byte) string {
 	if _, _, err := spec.ReadPacket(enc.NewBufferReader(append([]byte{}, frame...))); err == nil {
 		dec = 1
 	}
+	// the frame arrives in the face's reusable receive buffer, overwritten by the next read
+	if len(rbuf) < len(frame) {
+		rbuf = make([]byte, len(frame)+defn.MaxNDNPacketSize)
+	}
+	n := copy(rbuf, frame)
 	out := guarded(len(frame)+400*24, func() string {
-		face.VerifC04HandleFrame(ls, frame)
+		face.VerifC04HandleFrame(ls, rbuf[:n])
 		return ""
 	})
+	for i := range rbuf[:n] {
+		rbuf[i] = 0xAA
+	}
 	if out != "" {
 		return out
 	}
@@ -89,7 +149,7 @@ func linkFrame(frame []byte) string {
 		}
 	}
 	e, s, b := face.VerifC04StoreStats(ls)
-	return fmt.Sprintf("dec=%d i=%d d=%d:%s store=%d/%d/%d cnt=%d/%d", dec, ni, nd, strings.Join(where, "+"), e, s, b, ls.NInInterests(), ls.NInData())
+	return fmt.Sprintf("dec=%d i=%d d=%d:%s store=%d/%d/%d cnt=%d/%d qs=%s", dec, ni, nd, strings.Join(where, "+"), e, s, b, ls.NInInterests(), ls.NInData(), queuedStable())
 }
 
 // ---------------------------------------------------------------- stream framing
